@@ -6,6 +6,7 @@ package main
 import (
 	"context"
 	"fmt"
+	"google.golang.org/protobuf/proto"
 	"math/rand"
 	"sort"
 	"strings"
@@ -194,6 +195,13 @@ func alphabet(server bool) []op {
 					return err
 				}})
 			}
+		}
+		if !server {
+			// a delete that brings a precondition of the caller's own (it holds): the model's rules are not the
+			// caller's to replace
+			ops = append(ops, op{name: fmt.Sprintf("DeleteMode(%s,allowMissing=false,with the caller's own check)", id), kind: "delete", arg: id, run: func(x *sys) error {
+				return x.m.DeleteMode(x.id(id), resource.WithExpectedCheck(func(proto.Message) error { return nil }))
+			}})
 		}
 		if !server {
 			ops = append(ops, op{name: fmt.Sprintf("ChangeActiveMode(%s)", id), kind: "change", arg: id, run: func(x *sys) error {
